@@ -196,6 +196,10 @@ func (f *machoMarkers) PatchSignature(oldHeader []byte, sigSize int64) (newHeade
 	}
 	// allocate patch buffer for signature
 	padding = sigStart - f.codeSize
+	if padding < 0 {
+		err = errors.New("code signature offset lies before the end of the __LINKEDIT segment")
+		return
+	}
 	padded := make([]byte, padding+sigSize)
 	sigBuf = padded[padding:]
 	// make room for signature loadcmd if there isn't one already
